@@ -132,20 +132,24 @@ class RecTransport(_Base):
 
 AUTHS = ["h", "h:81", "u:p@h"]
 PATHS = ["", "/", "/a", "/a/b/", "/a%20b", "/%C3%A9", "//x", "/a.b", "/a+b", "/%2F", "/%7e", "/%c3%a9", "/%E9", "/a=b&c", "/%31"]
+# every printable ASCII character inside a path (';', '?' and '#' delimit other URL components: property domain)
+PATHS += ["/a%sb" % chr(c) for c in range(0x21, 0x7f) if chr(c) not in ";?#" and not chr(c).isalnum()] + ["/{x}|[y]^`\\\"<>", "/~user/$1/(a)*!'", "/a,b@c:d"]
 QUERIES = [None, "q=1", "a=1&b=2", "q=%20%26%3D", "=", "a=b=c", "?x", "%C3%A9=1", "q=a+b", "q=%2f%7E", "a", "a=1&a=2"]
 SCHEMES = ["http", "HTTP", "https", "unix+http"]
-BAD_SCHEMES = ["", "ftp", "ws", "file", "unix", "unix+ftp", "unix+https", "httpx", "http+unix", "unix+", "+http", "unixhttp", "jsonrpc"]
+BAD_SCHEMES = ["", "ftp", "ws", "file", "unix", "unix+ftp", "unix+https", "httpx", "http+unix", "unix+", "+http", "unixhttp", "jsonrpc",
+               "git+http", "svn+https", "tcp+http", "x+unix+http", "unix+unix+http", "http+http", "a+b+http", "unix+http+x", "unix-http", "unix http"]
 
 
 def cases_b(tier):
+    base = 15  # the paths beyond the first 15 vary one character each: they are combined with 3 queries only
     for scheme in SCHEMES:
         for auth in AUTHS:
-            for path in PATHS:
-                for q in QUERIES:
+            for pi, path in enumerate(PATHS):
+                for q in (QUERIES if pi < base else (None, "q=1", "q=%2f%7E")):
                     yield ("rec", scheme, auth, path, q)
     for scheme in ("http", "unix+http"):
-        for path in PATHS:
-            for q in QUERIES:
+        for pi, path in enumerate(PATHS):
+            for q in (QUERIES if pi < base else (None, "q=a+b")):
                 yield ("net", scheme, "h", path, q)
     for scheme in BAD_SCHEMES:
         for tail in ("h/p", "h", "h/p?q=1"):
@@ -584,8 +588,8 @@ META = {
     "URLs and schemes; bytes observed by a scripted raw peer behind the real HTTPConnection and by driving the real do_POST / CGI handler over in-memory streams",
     "rule": "request-framing: 10 payloads (sizes around 1024, 2-/3-/4-byte characters) x 3 content types x {call, kwargs, notify, batch} x {TCP, Unix}; "
     "request-sequence: sequences of 3 calls over the 10 payloads on one proxy/connection (quick: a fifth of the 1000); "
-    "request-target: 4 schemes x 3 authorities x 15 paths x 12 queries through a recording transport, http and unix+http through the in-memory network, 13 "
-    "unsupported schemes; parser-compositions: all 2^(n-1) compositions of 12 bodies of <=14 bytes; response-chunking: body sizes {1022..1026, 2047..2049, "
+    "request-target: 4 schemes x 3 authorities x (15 paths x 12 queries + one path per printable ASCII punctuation character x 3 queries) through a "
+    "recording transport, http and unix+http through the in-memory network, 23 unsupported schemes (incl. compound ones such as git+http, x+unix+http); parser-compositions: all 2^(n-1) compositions of 12 bodies of <=14 bytes; response-chunking: body sizes {1022..1026, 2047..2049, "
     "4099} x a 2-/3-/4-byte character starting at every offset that makes it touch a multiple of 1024 x identity/gzip x Content-Length/close-delimited x 4 "
     "delivery patterns; response-after-fault: a healthy response following a truncated / non-JSON / non-200 response larger than the read size on the same "
     "proxy; server-read: all compositions (<=2 cuts for longer bodies) of 6 bodies as short reads, plus a 10 MiB+1 body whose last character "
